@@ -14,7 +14,8 @@ META = {
             "with arbitrary SQLITE_BUSY refusals, and results and committed database equal the sequential run of "
             "the calls that did not report BUSY, in commit order; corollaries: n successful increments add n, Adds "
             "of one key succeed at most once, Removes of one key exactly once, Emplace keeps the first value, every "
-            "Append lands exactly once. "
+            "Append lands exactly once; the function of a Mutate is shown the value of that attempt only (every backend "
+            "invokes it at most once per call, or the decode target is fresh per invocation - extracted from the source). "
             "Lock/transaction skeletons are re-extracted from mem_kv.go / sqlite3_kv.go / psql_kv.go on every run; "
             "recorded concurrent histories of the real backends are decided by a Coq linearizability checker "
             "(proved sound) and by accounting checks.",
@@ -39,6 +40,7 @@ ERR = {"not_found": "ENotFound", "exists": "EExists", "key_too_long": "EKeyTooLo
        "user": "EUser", "busy": "EBusy", "other": "EOther", "panic": "EPanic",
        "upanic": "EPanic"}   # upanic: the panic value of the user's own function came back out of Mutate
 MUT = {"incr": "mf_incr", "incr-fail": "mf_err", "incr-cancel": "mf_cancel", "incr-panic": "mf_panic"}
+SETOPS = ("madd", "mdel", "sadd", "sdel")   # Mutates of a set-valued entry through a map / a struct target
 
 
 def lit(hexs):
@@ -54,6 +56,8 @@ def uop(o):
         return "UCount"
     if t in MUT:
         return "UMutate %s %s" % (k, MUT[t])
+    if t in SETOPS:
+        return "UMutate %s (%s %d)" % (k, "mf_sadd" if t[1:] == "add" else "mf_sdel", bytes.fromhex(o["v"])[0])
     return {"append": "UAppendBytes %s %s" % (k, v),
             "add": "UAdd %s %s" % (k, v), "emplace": "UEmplace %s %s" % (k, v),
             "replace": "UReplace %s %s" % (k, v), "remove": "URemove %s" % k,
@@ -97,6 +101,21 @@ def ref_step(m, o):
     if t == "count":
         return m, "ok", len(m)
     cur = m.get(k)
+    if t in SETOPS:
+        if cur is None:
+            return m, "not_found", None
+        try:
+            d = json.loads(cur.decode())
+            assert isinstance(d, dict)
+        except Exception:
+            return m, "other", None
+        x = v.decode()
+        if t[1:] == "add":
+            d[x] = 1
+        else:
+            d.pop(x, None)
+        nv = json.dumps(d, sort_keys=True, separators=(",", ":")).encode()
+        return dict(m, **{k: nv}), "ok", None
     if t in MUT:
         if cur is None:
             return m, "not_found", None
@@ -253,7 +272,7 @@ def impl_oracle(run):
                             rep({"hold": hold, "expected": "the call blocks until the holder returns"})))
                 break
     fin = {f["k"]: f for f in truth(run)}
-    if st in ("lin", "forced"):
+    if st in ("lin", "linset", "forced"):
         if not linearizable(run):
             out.append(("impl:not-linearizable:%s:%s" % (run.get("name", st), be),
                         "no order of the calls that did not report BUSY, consistent with real time, reproduces the "
@@ -286,6 +305,22 @@ def impl_oracle(run):
                     out.append(("impl:append-order:" + be, "tokens of goroutine %d are not in program order" % t,
                                 rep({"expected": "per-goroutine order preserved"})))
                     break
+    elif st == "ownset":
+        f = list(fin.values())[0]
+        try:
+            got = set(json.loads(bytes.fromhex(f.get("b") or "").decode()).keys())
+        except Exception:
+            got = None
+        want = set()
+        for t in range(run["threads"]):
+            oks = [c for c in calls if c["t"] == t and c["e"] == "ok"]
+            if oks and oks[-1]["op"]["op"][1:] == "add":
+                want.add(dstr(oks[-1]["op"]["v"]))
+        if got != want:
+            out.append(("impl:set-accounting:" + be,
+                        "every goroutine adds and removes only its own letter of one set: the set holds %s in the end, "
+                        "the last successful Mutates say %s" % (sorted(got) if got is not None else f.get("b"), sorted(want)),
+                        rep({"expected": "a letter is in the set iff its goroutine's last successful Mutate added it"})))
     elif st == "removerace":
         for k, f in fin.items():
             cs = [c for c in calls if c["op"]["k"] == k]
@@ -340,7 +375,7 @@ def acases(run):
     if any(c["e"] == "hang" for c in calls):
         return []     # reported by the oracle; there are no final contents to compare
     fin = truth(run)
-    if st in ("lin", "forced"):
+    if st in ("lin", "linset", "forced"):
         init = "[" + "; ".join(uop(o) for o in run.get("init") or []) + "]"
         hs = "[" + "; ".join("mkH %d %d (%s) (%s)" % (c["inv"], c["ret"], uop(c["op"]), res(c)) for c in calls) + "]"
         final = "[" + "; ".join("(%s, %s)" % (lit(f["k"]), opt(f)) for f in fin) + "]"
@@ -357,6 +392,14 @@ def acases(run):
         return ["CAppend 8 %s %s" % (oks, lit(fin[0].get("b") or ""))]
     code = {"ok": 0, "exists": 1, "busy": 2}
     out = []
+    if st == "ownset":
+        lasts = []
+        for t in range(run["threads"]):
+            mine = [c for c in calls if c["t"] == t]
+            oks = [c for c in mine if c["e"] == "ok"]
+            letter = bytes.fromhex(mine[0]["op"]["v"])[0]
+            lasts.append("(%d, %s)" % (letter, "true" if oks and oks[-1]["op"]["op"][1:] == "add" else "false"))
+        return ["COwnSet [%s] %s" % ("; ".join(lasts), opt(fin[0]))]
     if st == "removerace":
         rcode = {"ok": 0, "not_found": 1, "busy": 2}
         for f in fin:
@@ -480,6 +523,18 @@ def run(ck):
         ck.sample({"stream": r["stream"], "backend": r["backend"], "threads": r["threads"],
                    "calls": [{"t": c["t"], "inv": c["inv"], "ret": c["ret"], "op": c["op"]["op"], "e": c["e"]}
                              for c in r["calls"][:8]]})
+    # how often one call invoked the user's function (a backend that retries invokes it more than once;
+    # by itself that is no violation of the statement - recorded)
+    cbh = {}
+    for r in runs:
+        for c in r["calls"]:
+            if c.get("cb"):
+                k = "%s:%s:%d" % (r["backend"], c["op"]["op"], c["cb"])
+                cbh[k] = cbh.get(k, 0) + 1
+    ck.coverage["callback_invocations_per_call"] = cbh
+    multi = sorted(k for k in cbh if not k.endswith(":1"))
+    if multi:
+        ck.notes.append("a Mutate invoked the user's function more than once in one call: " + ", ".join(multi))
     ck.coverage["runs"] = len(runs)
     ck.coverage["calls"] = ncalls
     hist = {}
@@ -554,7 +609,8 @@ def run(ck):
              "replace/remove/get on 2 keys, all goroutines released by a spin barrier) decided by linearizability "
              "search; accounting runs with 2..16 goroutines (counters, unique-token appends; add, emplace and "
              "remove races released by a barrier per key, each Emplace followed by a read that must show the final "
-             "value); every third run on the key-hashing kind of store; the same under the race detector. A run is non-trivial if some call succeeded and two calls of "
+             "value); set-valued Mutates through map and struct targets (forced, linset, ownset); "
+             "every third run on the key-hashing kind of store; the same under the race detector. A run is non-trivial if some call succeeded and two calls of "
              "different goroutines overlapped in time; distinct = distinct recorded history",
         assumptions=["BUSY / decode / not-found / exists results mean 'not applied'",
                      "for sqlite the final contents are what is read after closing and reopening the database"])
